@@ -274,7 +274,13 @@ fn gen_train_in(rng: &mut Rng, bare_refs: bool) -> TrainIn {
         let len = 1 + rng.below(3);
         let s: Vec<u32> = (0..len).map(|_| *rng.pick(&LETTERS[..6])).collect();
         let c = rng.pick(&seed).1.clone();
-        user.push((s, 0, 0, 0, c));
+        user.push((s, 0, 0, 0, c.clone()));
+        if rng.chance(1, 2) {
+            // ... and a second row with the SAME features whose surface starts in the other category
+            // (0x61..0x63 are ALPHA, the other letters DEFAULT): %t differs, so does the feature set
+            user.push((vec![0x61, 0x62], 0, 0, 0, c.clone()));
+            user.push((vec![0x6771], 0, 0, 0, c));
+        }
     }
     let same = rng.chance(1, 4);
     let mut templates = gen_templates(rng, same);
